@@ -217,19 +217,40 @@ class Repo:
         return root in self.mro(cname)
 
     def func(self, key):
-        """key = 'path::func' or 'path::Class.method' -> (FunctionDef, modpath, classname|None)"""
+        """key = 'path::func' | 'path::Class.method' | either followed by '.inner' for nested defs
+        -> (FunctionDef, modpath, classname|None)"""
         path, q = key.split("#")[0].split("::")
-        if "." in q:
-            cn, mn = q.split(".")
-            fn, owner = self.find_method(cn, mn)
-            if fn is None:
+        parts = q.split(".")
+        node, modpath, cls = None, path, None
+        if parts[0] in self.classes and len(parts) >= 2 and self.find_method(parts[0], parts[1])[0] is not None:
+            fn, owner = self.find_method(parts[0], parts[1])
+            node, modpath, cls = fn, self.classes[owner].path, parts[0]
+            rest = parts[2:]
+        else:
+            m = self.modules[path]
+            d = m.defs.get(parts[0])
+            if not d or d[0] != "func":
                 raise KeyError(key)
-            return fn, self.classes[owner].path, cn
-        m = self.modules[path]
-        d = m.defs.get(q)
-        if not d or d[0] != "func":
-            raise KeyError(key)
-        return d[1], path, None
+            node = d[1]
+            rest = parts[1:]
+        for name in rest:
+            found = None
+            for x in ast.walk(node):
+                if isinstance(x, ast.FunctionDef) and x.name == name and x is not node:
+                    found = x
+                    break
+            if found is None:
+                raise KeyError(key)
+            node = found
+        return node, modpath, cls
+
+    def outer_key(self, key):
+        """for a nested-def key return the key of the outermost enclosing function, else None"""
+        path, q = key.split("#")[0].split("::")
+        parts = q.split(".")
+        if parts[0] in self.classes and len(parts) >= 2 and self.find_method(parts[0], parts[1])[0] is not None:
+            return f"{path}::{parts[0]}.{parts[1]}" if len(parts) > 2 else None
+        return f"{path}::{parts[0]}" if len(parts) > 1 else None
 
     def source_hash(self, fn_node, modpath):
         seg = ast.get_source_segment(self.modules[modpath].src, fn_node) or ""
